@@ -22,7 +22,7 @@ def perm_from_key(n, key):
 def mask_for(n, mask):
     k = len(mask)
     out = [bool(mask[i % k]) for i in range(n)]
-    if not any(out):
+    if n and not any(out):
         out[0] = True
     return out
 
@@ -74,7 +74,19 @@ def histories(kind="any", counts=False, max_size=4):
         el = write_ops(counts)
     else:
         el = st.one_of(read_ops(), write_ops(counts))
-    return st.lists(el, min_size=0, max_size=max_size)
+    body = st.lists(el, min_size=0, max_size=max_size)
+    if kind == "read":
+        tail = st.one_of(
+            st.just([]), st.just([]),
+            st.builds(lambda a, k: [{"op": "sort_rt", "axis": a, "key": k}],
+                      AX, KEY))
+    else:
+        # a final reordering leaves unsorted indices / a re-built index behind
+        tail = st.one_of(
+            st.just([]), st.just([]),
+            st.builds(lambda a, k: [{"op": "sort", "axis": a, "key": k}],
+                      AX, KEY))
+    return st.tuples(body, tail).map(lambda bt: bt[0] + bt[1])
 
 
 def apply_history(t, ops, rec=None):
